@@ -29,6 +29,7 @@ static const char *const OTHER[] = {
 	"armed wall-clock timer (+60 s) re-set to the uptime clock (+3 ms) while two uptime dispatch_after (+2 ms, +5 ms) are pending",
 	"one-shot timer (+1 ms) fires while its source is suspended, is re-set to +5 ms while still suspended, then resumed: the stale fire must be dropped",
 	"one-shot timer (+1 ms) fires while its target queue is busy with a 3 ms item, is re-set to +6 ms before the handler could run",
+	"periodic timer (1 ms) whose first two handler invocations block for 2 ms each: expiries land while earlier fires are unconsumed or being consumed; no fire may be counted twice",
 };
 #define N_OTHER ((int)(sizeof(OTHER) / sizeof(OTHER[0])))
 enum { EV_ARM = EV_USER, EV_FIRE, EV_TIMER_FIRE, EV_SETTIMER, EV_RESUME };
@@ -68,6 +69,7 @@ static void timer_fn(void *ctx)
 		else dispatch_source_cancel(g_ts);
 		break;
 	case 9: if (g_tfires >= 3) dispatch_source_cancel(g_ts); break;
+	case 16: if (g_tfires <= 2) vx_sleep_ns(2 * MS); if (g_tfires >= 3) dispatch_source_cancel(g_ts); break;
 	default: dispatch_source_cancel(g_ts); break;
 	}
 }
@@ -158,6 +160,7 @@ static void run(int v)
 		set_timer(CK_UPTIME, 6 * (int64_t)MS, DISPATCH_TIME_FOREVER, 0);
 		wait_int(&g_tfires, 1);
 		break;
+	case 16: mk_timer(CK_UPTIME, 1 * MS, 1 * MS, 0, 1); wait_int(&g_tfires, 3); break;
 	case 13:
 		mk_timer(CK_WALL, 60000 * (int64_t)MS, DISPATCH_TIME_FOREVER, 0, 1);
 		arm_after(1, CK_UPTIME, 2 * MS); arm_after(2, CK_UPTIME, 5 * MS);
@@ -176,8 +179,8 @@ static int check(int v, const vx_log *l, char *msg, size_t len)
 {
 	uint64_t arm_vt[16]; int64_t arm_d[16]; int nfire[16], armed[16];
 	memset(arm_vt, 0, sizeof arm_vt); memset(arm_d, 0, sizeof arm_d); memset(nfire, 0, sizeof nfire); memset(armed, 0, sizeof armed);
-	static const uint64_t INTERVAL[] = { 1 * MS, 1 * MS, 0, 1 * MS, 0, 0, 0, 0, 0, 2 * MS, 0, 0, 0, 0, 0, 0 };
-	static const int WANT[] = { 4, 4, 0, 2, 2, 1, 1, 0, 1, 3, 1, 1, 1, 1, 1, 1 };
+	static const uint64_t INTERVAL[] = { 1 * MS, 1 * MS, 0, 1 * MS, 0, 0, 0, 0, 0, 2 * MS, 0, 0, 0, 0, 0, 0, 1 * MS };
+	static const int WANT[] = { 4, 4, 0, 2, 2, 1, 1, 0, 1, 3, 1, 1, 1, 1, 1, 1, 3 };
 	int k = v - N_AFTER;
 	uint64_t interval = k >= 0 ? INTERVAL[k] : 0;
 	uint64_t start = 0, first_start = 0, resume_vt = 0; int nset = 0, timer_fires = 0;
@@ -208,7 +211,7 @@ static int check(int v, const vx_log *l, char *msg, size_t len)
 	for (int id = 1; id < 16; id++) if (armed[id] && nfire[id] != 1) FAILF(msg, len, "dispatch_after block %d ran %d times", id, nfire[id]);
 	if (k >= 0) {
 		// periodic timers may coalesce several intervals into one invocation: only one-shot counts are exact
-		if ((k == 4 || k == 5 || k == 6 || k == 8 || k >= 10) && timer_fires != WANT[k]) FAILF(msg, len, "one-shot timer handler ran %d times (expected %d)", timer_fires, WANT[k]);
+		if ((k == 4 || k == 5 || k == 6 || k == 8 || (k >= 10 && k <= 15)) && timer_fires != WANT[k]) FAILF(msg, len, "one-shot timer handler ran %d times (expected %d)", timer_fires, WANT[k]);
 		if (timer_fires > WANT[k]) FAILF(msg, len, "timer handler ran %d times although it was cancelled at its %dth invocation", timer_fires, WANT[k]);
 	}
 	return 0;
